@@ -43,6 +43,12 @@ pub fn c13(args: &Args, reg: &[TypeEntry], log: &mut Log) {
         for rep in 0..2 {
             clear_dir(&root);
             verif::reset_registry();
+            // the same directory, named relatively (the default ./bindings) in one repetition and absolutely in the other
+            if rep == 1 {
+                std::env::set_var("TS_RS_EXPORT_DIR", root.join("bindings"));
+            } else {
+                std::env::remove_var("TS_RS_EXPORT_DIR");
+            }
             let mut order: Vec<usize> = (0..reg.len()).collect();
             rng.shuffle(&mut order);
             let chunks: Vec<Vec<usize>> = (0..threads).map(|t| order.iter().copied().skip(t).step_by(threads).collect()).collect();
@@ -112,6 +118,11 @@ pub fn c13(args: &Args, reg: &[TypeEntry], log: &mut Log) {
         for rep in 0..2 {
             clear_dir(&root);
             verif::reset_registry();
+            if rep == 1 {
+                std::env::set_var("TS_RS_EXPORT_DIR", root.join("bindings"));
+            } else {
+                std::env::remove_var("TS_RS_EXPORT_DIR");
+            }
             rng.shuffle(&mut ops);
             let chunks: Vec<Vec<(usize, bool)>> = (0..threads).map(|t| ops.iter().copied().skip(t).step_by(threads).collect()).collect();
             let barrier = Arc::new(Barrier::new(threads));
@@ -144,6 +155,7 @@ pub fn c13(args: &Args, reg: &[TypeEntry], log: &mut Log) {
         }
     }
     }
+    std::env::remove_var("TS_RS_EXPORT_DIR");
     if let Some((d, tree)) = first {
         let shared: usize = tree.values().filter(|b| String::from_utf8_lossy(b).matches("export type ").count() > 1).count();
         let multi_import: usize = tree.values().filter(|b| String::from_utf8_lossy(b).matches("import type ").count() >= 3).count();
